@@ -68,6 +68,14 @@ def eval_sym(s, env, memo):
             r = (v + Fraction(1, 2), e + Fraction(1, 2))
         else:
             r = (v, e + 1)
+    elif op == "isqrt":
+        # floor(sqrt(n)) (verified loop summary, fxai.isqrt): one-sided rounding of the real root
+        n, en = eval_key(ta[1], env, memo)
+        if n - en <= 0:
+            raise Unsupported("isqrt argument may vanish")
+        lo = _sqrt_frac(n - en, False)
+        hi = _sqrt_frac(n + en, True)
+        r = ((lo + hi) / 2 - Fraction(1, 2), (hi - lo) / 2 + Fraction(1, 2))
     elif op == "fptosi":
         z, ez = feval(ta[2], env, memo)
         # truncation toward zero of z (+- ez): within 1/2 of z -+ 1/2
@@ -315,6 +323,16 @@ def cell_sym(s, xiv, memo):
             r = ((V[0] + h, V[1] + h), D, E + h)
         else:
             r = (V, D, E + 1)
+    elif op == "isqrt":
+        a, da, ea = cell_key(ta[1], xiv, memo)
+        if a[0] - ea <= 0:
+            raise Unsupported("isqrt argument may vanish on the cell")
+        lo = _sqrt_frac(a[0], False)
+        hi = _sqrt_frac(a[1], True)
+        h = Fraction(1, 2)
+        D = _mul(da, (1 / (2 * hi), 1 / (2 * lo)))
+        E = ea / (2 * _sqrt_frac(a[0] - ea, False)) + h
+        r = ((lo - h, hi - h), D, E)
     elif op == "fptosi":
         z, dz, ez = fcell(ta[2], xiv, memo)
         if z[0] - ez >= 0:
